@@ -115,6 +115,7 @@ def check(ix, rep):
     col = _Collect(rep)
     nord, narms, used = ordkernel.check_kernel(ix, col, KERNEL)
     ordkernel.check_finitary(ix, col, KERNEL)
+    ordkernel.check_append_helper(ix, col, KERNEL)
     for e in col.errors:
         rep.error(e)
     km = ix.module(KERNEL)
@@ -276,6 +277,11 @@ def check(ix, rep):
         f_ = k_.methods.get('time_unit_transformer') if k_ is not None else None
         if f_ is not None:
             memo.check_method(ix, rep, k_, f_, 'converter')
+    # the two monitors are fed the same lists: neither may write into what it was handed (an operand overwritten in place is read changed by
+    # the next operator of the same formula)
+    from sa.rules import ownrule as _own
+    _nown = _own.run(ix, rep)
+    rep.floor('functions in the ownership analysis', _nown, 250)
     explanation = __doc__.split('\n\n', 1)[1].strip().replace('\n', ' ')
     assumptions = ['the time-stamp of sample k is k * period, expressed in the default unit of the specification (premise of the property)',
                    'hand lemma: nesting -- on grid-aligned inputs every break-point of a dense result is T[k] +- a bound, again a grid point, so the argument composes',
